@@ -68,6 +68,7 @@ Proof.
   - apply all_digits_nonnil. apply N_dec_digits. apply negb_true_iff in T. apply N.eqb_neq in T. auto.
   - destruct t; discriminate.
   - destruct b; discriminate.
+  - intro E. apply app_eq_nil in E. destruct E as [_ E]. discriminate E.
 Qed.
 
 (** * what [header_lines_lsf] prints *)
@@ -1123,11 +1124,12 @@ Section LsfScript2.
     change (key_name RTasks) with (s "procs") in D. unfold tval in D.
     destruct (truthy (run_val st (s "procs"))) eqn:T.
     - destruct (digits_word _ (D _ eq_refl)). auto.
-    - destruct (run_val st (s "procs")) as [n|t0|bb|]; simpl in T.
+    - destruct (run_val st (s "procs")) as [n|t0|bb| |n]; simpl in T.
       + apply negb_false_iff in T. apply N.eqb_eq in T. subst n. reflexivity.
       + destruct t0; try discriminate. reflexivity.
       + destruct bb; try discriminate. reflexivity.
       + reflexivity.
+      + apply negb_false_iff in T. apply N.eqb_eq in T. subst n. reflexivity.
   Qed.
 
   Lemma finl_start : forall ps, pieces_wf ps = true -> starts_cmd ps = true ->
